@@ -3,14 +3,12 @@
   `table` maps a registered function name to its model; a registered name with no entry
   here is reported by the evaluator as `Value.other "unmodelled-builtin"`.
 -/
-import HotXL.Model.Basic
-import HotXL.Model.Operators
+import HotXL.Model.Fn.Common
 
 namespace HotXL.Fn.Lookup
 open HotXL
 
-/-- a builtin: evaluated arguments to a value, or a raised Python exception (as its error code) -/
-abbrev Builtin := List Value → Except Err Value
+open HotXL.Fn
 
 def table : List (String × Builtin) := []
 
